@@ -38,6 +38,8 @@ Inductive phase :=
 | PFinal            (* the deferred final runCleanup is in progress *)
 | PRet (e : err).   (* conduct returned e *)
 
+Record watch := mkW { wS : bool; wA : bool; wK : bool }.
+
 Record cstate := mkC {
   ph : phase;
   sP : cst; sS : cst; sA : cst; sK : cst;
@@ -52,7 +54,10 @@ Record cstate := mkC {
   g_cl2 : bool;             (* the final cleanup ran *)
   g_bad_order : bool;       (* a scene before the initial cleanup ended, a cleanup run twice,
                                or the final cleanup while the prompter had not terminated *)
-  g_scene_after_cancel : bool }.
+  (* conduct's local copies of the spotlight / audition / collector error channels:
+     false = set to nil (that stage reported nil ahead of its turn and is no longer
+     watched by the selects of stages 1 and 2; commit 19d275f) *)
+  wt : watch }.
 
 Inductive label :=
 | LCleanup1 (ok : bool)          (* the initial cleanup of every actor has ended *)
@@ -65,7 +70,7 @@ Inductive label :=
 | LCleanup2 (ok : bool).         (* the final cleanup of every actor has ended *)
 
 Definition init (h : bool) : cstate :=
-  mkC PInit Run Run Run Run false false false false false h ENil false false false false false false.
+  mkC PInit Run Run Run Run false false false false false h ENil false false false false false (mkW true true true).
 
 Definition st_of (s : cstate) (c : comp) : cst :=
   match c with CP => sP s | CS => sS s | CA => sA s | CK => sK s end.
@@ -75,22 +80,35 @@ Definition running (x : cst) : bool := match x with Run => true | _ => false end
 
 Definition set_st (s : cstate) (c : comp) (x : cst) : cstate :=
   match c with
-  | CP => mkC (ph s) x (sS s) (sA s) (sK s) (cP s) (cS s) (cA s) (cK s) (quiesce s) (hang s) (fe s) (g_completed s) (g_cl1 s) (g_cl1_ok s) (g_cl2 s) (g_bad_order s) (g_scene_after_cancel s)
-  | CS => mkC (ph s) (sP s) x (sA s) (sK s) (cP s) (cS s) (cA s) (cK s) (quiesce s) (hang s) (fe s) (g_completed s) (g_cl1 s) (g_cl1_ok s) (g_cl2 s) (g_bad_order s) (g_scene_after_cancel s)
-  | CA => mkC (ph s) (sP s) (sS s) x (sK s) (cP s) (cS s) (cA s) (cK s) (quiesce s) (hang s) (fe s) (g_completed s) (g_cl1 s) (g_cl1_ok s) (g_cl2 s) (g_bad_order s) (g_scene_after_cancel s)
-  | CK => mkC (ph s) (sP s) (sS s) (sA s) x (cP s) (cS s) (cA s) (cK s) (quiesce s) (hang s) (fe s) (g_completed s) (g_cl1 s) (g_cl1_ok s) (g_cl2 s) (g_bad_order s) (g_scene_after_cancel s)
+  | CP => mkC (ph s) x (sS s) (sA s) (sK s) (cP s) (cS s) (cA s) (cK s) (quiesce s) (hang s) (fe s) (g_completed s) (g_cl1 s) (g_cl1_ok s) (g_cl2 s) (g_bad_order s) (wt s)
+  | CS => mkC (ph s) (sP s) x (sA s) (sK s) (cP s) (cS s) (cA s) (cK s) (quiesce s) (hang s) (fe s) (g_completed s) (g_cl1 s) (g_cl1_ok s) (g_cl2 s) (g_bad_order s) (wt s)
+  | CA => mkC (ph s) (sP s) (sS s) x (sK s) (cP s) (cS s) (cA s) (cK s) (quiesce s) (hang s) (fe s) (g_completed s) (g_cl1 s) (g_cl1_ok s) (g_cl2 s) (g_bad_order s) (wt s)
+  | CK => mkC (ph s) (sP s) (sS s) (sA s) x (cP s) (cS s) (cA s) (cK s) (quiesce s) (hang s) (fe s) (g_completed s) (g_cl1 s) (g_cl1_ok s) (g_cl2 s) (g_bad_order s) (wt s)
   end.
 
 Definition set_cancel (s : cstate) (c : comp) : cstate :=
   match c with
-  | CP => mkC (ph s) (sP s) (sS s) (sA s) (sK s) true (cS s) (cA s) (cK s) (quiesce s) (hang s) (fe s) (g_completed s) (g_cl1 s) (g_cl1_ok s) (g_cl2 s) (g_bad_order s) (g_scene_after_cancel s)
-  | CS => mkC (ph s) (sP s) (sS s) (sA s) (sK s) (cP s) true (cA s) (cK s) (quiesce s) (hang s) (fe s) (g_completed s) (g_cl1 s) (g_cl1_ok s) (g_cl2 s) (g_bad_order s) (g_scene_after_cancel s)
-  | CA => mkC (ph s) (sP s) (sS s) (sA s) (sK s) (cP s) (cS s) true (cK s) (quiesce s) (hang s) (fe s) (g_completed s) (g_cl1 s) (g_cl1_ok s) (g_cl2 s) (g_bad_order s) (g_scene_after_cancel s)
-  | CK => mkC (ph s) (sP s) (sS s) (sA s) (sK s) (cP s) (cS s) (cA s) true (quiesce s) (hang s) (fe s) (g_completed s) (g_cl1 s) (g_cl1_ok s) (g_cl2 s) (g_bad_order s) (g_scene_after_cancel s)
+  | CP => mkC (ph s) (sP s) (sS s) (sA s) (sK s) true (cS s) (cA s) (cK s) (quiesce s) (hang s) (fe s) (g_completed s) (g_cl1 s) (g_cl1_ok s) (g_cl2 s) (g_bad_order s) (wt s)
+  | CS => mkC (ph s) (sP s) (sS s) (sA s) (sK s) (cP s) true (cA s) (cK s) (quiesce s) (hang s) (fe s) (g_completed s) (g_cl1 s) (g_cl1_ok s) (g_cl2 s) (g_bad_order s) (wt s)
+  | CA => mkC (ph s) (sP s) (sS s) (sA s) (sK s) (cP s) (cS s) true (cK s) (quiesce s) (hang s) (fe s) (g_completed s) (g_cl1 s) (g_cl1_ok s) (g_cl2 s) (g_bad_order s) (wt s)
+  | CK => mkC (ph s) (sP s) (sS s) (sA s) (sK s) (cP s) (cS s) (cA s) true (quiesce s) (hang s) (fe s) (g_completed s) (g_cl1 s) (g_cl1_ok s) (g_cl2 s) (g_bad_order s) (wt s)
   end.
 
 Definition set_ph_fe (s : cstate) (p : phase) (e : err) : cstate :=
-  mkC p (sP s) (sS s) (sA s) (sK s) (cP s) (cS s) (cA s) (cK s) (quiesce s) (hang s) e (g_completed s) (g_cl1 s) (g_cl1_ok s) (g_cl2 s) (g_bad_order s) (g_scene_after_cancel s).
+  mkC p (sP s) (sS s) (sA s) (sK s) (cP s) (cS s) (cA s) (cK s) (quiesce s) (hang s) e (g_completed s) (g_cl1 s) (g_cl1_ok s) (g_cl2 s) (g_bad_order s) (wt s).
+
+Definition watched (s : cstate) (c : comp) : bool :=
+  match c with CP => true | CS => wS (wt s) | CA => wA (wt s) | CK => wK (wt s) end.
+
+Definition unwatch (s : cstate) (c : comp) : cstate :=
+  let w := wt s in
+  let w' := match c with
+            | CP => w
+            | CS => mkW false (wA w) (wK w)
+            | CA => mkW (wS w) false (wK w)
+            | CK => mkW (wS w) (wA w) false
+            end in
+  mkC (ph s) (sP s) (sS s) (sA s) (sK s) (cP s) (cS s) (cA s) (cK s) (quiesce s) (hang s) (fe s) (g_completed s) (g_cl1 s) (g_cl1_ok s) (g_cl2 s) (g_bad_order s) w'.
 
 (** Entering a blocking receive of an interrupt sequence calls the cancel
     function of that component first ([promptDone(); <-th.prErrCh] ...). *)
@@ -147,17 +165,17 @@ Definition step (s : cstate) (l : label) : option cstate :=
   | LQuiesce, PRet _ => None
   | LQuiesce, _ =>
       if quiesce s then None else
-      Some (mkC (ph s) (sP s) (sS s) (sA s) (sK s) (cP s) (cS s) (cA s) (cK s) true (hang s) (fe s) (g_completed s) (g_cl1 s) (g_cl1_ok s) (g_cl2 s) (g_bad_order s) (g_scene_after_cancel s))
+      Some (mkC (ph s) (sP s) (sS s) (sA s) (sK s) (cP s) (cS s) (cA s) (cK s) true (hang s) (fe s) (g_completed s) (g_cl1 s) (g_cl1_ok s) (g_cl2 s) (g_bad_order s) (wt s))
   | LCleanup1 ok, PInit =>
       Some (mkC (if ok then PPlay Sel1 else PRet EOther)
                 (sP s) (sS s) (sA s) (sK s) (cP s) (cS s) (cA s) (cK s) (quiesce s) (hang s) (fe s)
-                (g_completed s) true ok (g_cl2 s) (g_bad_order s || g_cl1 s) (g_scene_after_cancel s))
+                (g_completed s) true ok (g_cl2 s) (g_bad_order s || g_cl1 s) (wt s))
   | LScene, PPlay _ =>
       if running (sP s) && negb (hang s) && negb (cP s) && negb (quiesce s) then Some s else None
   | LFinP completed e, PPlay _ =>
       if finP_ok s completed e
       then Some (mkC (ph s) (Fin e) (sS s) (sA s) (sK s) (cP s) (cS s) (cA s) (cK s) (quiesce s) (hang s) (fe s)
-                     completed (g_cl1 s) (g_cl1_ok s) (g_cl2 s) (g_bad_order s) (g_scene_after_cancel s))
+                     completed (g_cl1 s) (g_cl1_ok s) (g_cl2 s) (g_bad_order s) (wt s))
       else None
   | LFin c e, PPlay _ => if fin_ok s c e then Some (set_st s c (Fin e)) else None
   | LPick c, PPlay p =>
@@ -168,14 +186,23 @@ Definition step (s : cstate) (l : label) : option cstate :=
           match p, c with
           (* stage 1 *)
           | Sel1, CP => Some (set_cancel (set_ph_fe s' (PPlay Sel2) (combine e (fe s))) CP)
-          | Sel1, _ => Some (goto_int s' I1P CP (combine e (fe s)))
+          (* a later stage reporting nil ahead of its turn is noted (its local
+             channel is set to nil) and conduct keeps waiting; anything else
+             from a later stage starts the "something went wrong" sequence *)
+          | Sel1, _ =>
+              if negb (watched s c) then None
+              else if is_nil e then Some (unwatch s' c)
+              else Some (goto_int s' I1P CP (combine e (fe s)))
           | I1P, CP => Some (goto_int s' I1S CS (combine (ign_cancel e) (fe s)))
           | I1S, CS => Some (goto_int s' I1A CA (combine (ign_cancel e) (fe s)))
           | I1A, CA => Some (goto_int s' I1K CK (combine (ign_cancel e) (fe s)))
           | I1K, CK => Some (set_ph_fe s' (PPlay Sel2) (combine (ign_cancel e) (fe s)))
           (* stage 2 *)
           | Sel2, CS => Some (set_cancel (set_ph_fe s' (PPlay Sel3) (combine e (fe s))) CS)
-          | Sel2, CA | Sel2, CK => Some (goto_int s' I2S CS (combine e (fe s)))
+          | Sel2, CA | Sel2, CK =>
+              if negb (watched s c) then None
+              else if is_nil e then Some (unwatch s' c)
+              else Some (goto_int s' I2S CS (combine e (fe s)))
           | I2S, CS => Some (goto_int s' I2A CA (combine (ign_cancel e) (fe s)))
           | I2A, CA => Some (goto_int s' I2K CK (combine (ign_cancel e) (fe s)))
           | I2K, CK => Some (set_cancel (set_ph_fe s' (PPlay Sel3) (combine (ign_cancel e) (fe s))) CS)
@@ -199,7 +226,7 @@ Definition step (s : cstate) (l : label) : option cstate :=
       Some (mkC (PRet (combine (fe s) (if ok then ENil else EOther)))
                 (sP s) (sS s) (sA s) (sK s) (cP s) (cS s) (cA s) (cK s) (quiesce s) (hang s) (fe s)
                 (g_completed s) (g_cl1 s) (g_cl1_ok s) true
-                (g_bad_order s || g_cl2 s || running (sP s) || negb (g_cl1_ok s)) (g_scene_after_cancel s))
+                (g_bad_order s || g_cl2 s || running (sP s) || negb (g_cl1_ok s)) (wt s))
   | _, _ => None
   end.
 
@@ -241,7 +268,8 @@ Definition pc_left (p : pc) : nat :=
 Definition measure (s : cstate) : nat :=
   (match ph s with PInit => 18 | PPlay p => 1 + pc_left p | PFinal => 1 | PRet _ => 0 end * 2
    + nrun (sP s) + nrun (sS s) + nrun (sA s) + nrun (sK s)
-   + (if quiesce s then 0 else 1))%nat.
+   + (if quiesce s then 0 else 1)
+   + (if wS (wt s) then 1 else 0) + (if wA (wt s) then 1 else 0) + (if wK (wt s) then 1 else 0))%nat.
 
 (** * The kill protocol of one command (runActorCommandWithConsumer) *)
 
